@@ -50,8 +50,19 @@ func runOne(ctx context.Context, sp solverSpec, file string, timeout int, strMod
 	_ = cmd.Run()
 	secs := time.Since(t0).Seconds()
 	text := out.String()
-	first := strings.TrimSpace(strings.SplitN(text, "\n", 2)[0])
+	first := ""
+	for _, ln := range strings.Split(text, "\n") {
+		t := strings.TrimSpace(ln)
+		if t == "" || strings.HasPrefix(t, "WARNING") || strings.HasPrefix(t, "(warning") {
+			continue
+		}
+		first = t
+		break
+	}
 	res := "error"
+	if strings.HasPrefix(first, "(error") {
+		first = "error"
+	}
 	switch {
 	case first == "unsat":
 		res = "unsat"
